@@ -25,11 +25,26 @@ def containers(cls):
     for m in cls.methods.values():
         for n in walk_no_defs(m.node):
             if isinstance(n, ast.Call) and isinstance(n.func, ast.Attribute) and n.func.attr in ('append', 'add') and n.args \
-                    and src(n.args[0]) in SOCK_VARS and isinstance(n.func.value, ast.Attribute) and src(n.func.value.value) == 'self':
+                    and _is_sock_name(m, n.args[0]) and isinstance(n.func.value, ast.Attribute) and src(n.func.value.value) == 'self':
                 out.setdefault(n.func.value.attr, set()).add(n.func.attr)
-            if isinstance(n, ast.Subscript) and src(n.slice) in SOCK_VARS and isinstance(n.value, ast.Attribute) and src(n.value.value) == 'self':
+            if isinstance(n, ast.Subscript) and _is_sock_name(m, n.slice) and isinstance(n.value, ast.Attribute) and src(n.value.value) == 'self':
                 out.setdefault(n.value.attr, set()).add('[]')
     return out
+
+
+def _is_sock_name(func, e):
+    """A name that denotes a connection socket: called sock/newsock, or a loop variable over a list of sockets."""
+    if not isinstance(e, ast.Name):
+        return False
+    if e.id in SOCK_VARS:
+        return True
+    for n in walk_no_defs(func.node):
+        if isinstance(n, ast.For) and isinstance(n.target, ast.Name) and n.target.id == e.id:
+            if 'sock' in src(n.iter) or 'client' in src(n.iter):
+                return True
+            if isinstance(n.iter, ast.Name) and any('sock' in src(x) or '_clients' in src(x) for x in pat.flows_from(func, n.iter.id, depth=2)):
+                return True
+    return False
 
 
 def run(repo, chk):
